@@ -1,19 +1,15 @@
 import EupsModel.Lemmas.LockPathR
-/-! C09, repaired protocol, several stacks — `MutexM` in every reachable state, for paths without repeated elements. -/
+/-! C09, repaired protocol, several stacks — `MutexM` in every reachable state, for paths without repeated elements,
+with and without signals. -/
 namespace EupsModel.LockPathR
 open EupsModel.Lock (Pid Kind Err)
 open EupsModel.LockR
 
-theorem mutexM_mrun (kind : Pid → Kind) (lp : Pid → Option Pid) (tries : Pid → Nat)
-    (path : Pid → List Dir) (explicit : Pid → Bool) (hnd : ∀ p, (path p).Nodup) (sched : List Pid) :
-    MutexM (mrun (minit kind lp tries path explicit) sched) := by
+theorem mutexM_of (S : PSt) (hinv : ∀ d, Inv (S.comp d)) (hheld : ∀ p, Held S p) : MutexM S := by
   intro d p q hpq hnr hp hq hdp hdq hh hk
-  have hinv := inv_mrun (minit kind lp tries path explicit) sched (fun _ => inv_init kind lp tries) d
-  have hheld := held_mrun (minit kind lp tries path explicit) sched hnd
-    (fun p => held_minit kind lp tries path explicit p) q
-  generalize mrun (minit kind lp tries path explicit) sched = S at *
   -- q is in its body, so it holds every stack of its path, d among them
   have hqh : (S.comp d).pc q = .hold := by
+    have hheld := hheld q
     unfold Held at hheld
     cases hc : S.ctl q with
     | body n reg =>
@@ -28,6 +24,18 @@ theorem mutexM_mrun (kind : Pid → Kind) (lp : Pid → Option Pid) (tries : Pid
     | unw a b c => simp [hc, inBodyM] at hq
     | rel a b c e => simp [hc, inBodyM] at hq
     | fin o => simp [hc, inBodyM] at hq
-  exact hinv.excl p q hpq hh hqh hnr (Or.inl hk)
+  exact (hinv d).excl p q hpq hh hqh hnr (Or.inl hk)
+
+theorem mutexM_mrun (kind : Pid → Kind) (lp : Pid → Option Pid) (tries : Pid → Nat)
+    (path : Pid → List Dir) (explicit : Pid → Bool) (hnd : ∀ p, (path p).Nodup) (sched : List Pid) :
+    MutexM (mrun (minit kind lp tries path explicit) sched) :=
+  mutexM_of _ (inv_mrun _ sched (fun _ => inv_init kind lp tries))
+    (held_mrun _ sched hnd (fun p => held_minit kind lp tries path explicit p))
+
+theorem mutexM_mrunE (kind : Pid → Kind) (lp : Pid → Option Pid) (tries : Pid → Nat)
+    (path : Pid → List Dir) (explicit : Pid → Bool) (hnd : ∀ p, (path p).Nodup) (evs : List MEv) :
+    MutexM (mrunE (minit kind lp tries path explicit) evs) :=
+  mutexM_of _ (inv_mrunE _ evs (fun _ => inv_init kind lp tries))
+    (held_mrunE _ evs hnd (fun p => held_minit kind lp tries path explicit p))
 
 end EupsModel.LockPathR
